@@ -94,6 +94,26 @@ func c03Template(b *core.B, class, in string) {
 			b.ViolateIn("entry-point|RenderR-accepts", in, fmt.Sprintf("NewTemplate failed with %q but RenderR returned (%q, %v)", err, o2, e2))
 		}
 	}
+	if err != nil && len(in) < 40 {
+		// the same text through the cache: a rejected input must leave Parse usable
+		var e1, e2, e3 error
+		pan := core.Guard(func() {
+			plush.CacheEnabled = true
+			defer func() { plush.CacheEnabled = false }()
+			_, e1 = plush.Parse(in)
+			_, e2 = plush.Parse(in)
+			_, e3 = plush.Parse("ok<%= 1 %>")
+		})
+		b.Count("cache-enabled-parse-of-rejected-input")
+		switch {
+		case pan != nil:
+			b.ViolateIn("cached-parse|"+pan.Sig(), in, pan.Value)
+		case e1 == nil || e2 == nil:
+			b.ViolateIn("cached-parse|accepts", in, fmt.Sprintf("NewTemplate failed with %q but plush.Parse with the cache on returned %v, then %v", err, e1, e2))
+		case e3 != nil:
+			b.ViolateIn("cached-parse|poisoned", in, fmt.Sprintf("after the rejected input a good template fails: %v", e3))
+		}
+	}
 	if err != nil && t != nil {
 		// the template value handed back with the error must stay unusable:
 		// parsing it again fails again, executing it returns the error
